@@ -62,6 +62,15 @@ func root() string {
 	return "/verif"
 }
 
+// outRoot is where evidence/ and replay/ are written (VERIF_OUT overrides, used when a
+// check is pointed at a scratch copy of the repository).
+func outRoot() string {
+	if r := os.Getenv("VERIF_OUT"); r != "" {
+		return r
+	}
+	return root()
+}
+
 type violation struct {
 	Key     string `json:"key"`
 	What    string `json:"what"`
@@ -738,7 +747,7 @@ func runParent(opt Options, tier string, seed int64) int {
 	nViol := 0
 	nKnown := 0
 	var knownSeen []string
-	os.MkdirAll(filepath.Join(root(), "replay"), 0o755)
+	os.MkdirAll(filepath.Join(outRoot(), "replay"), 0o755)
 	var lines []string
 	for _, key := range order {
 		g := idx[key]
@@ -761,7 +770,7 @@ func runParent(opt Options, tier string, seed int64) int {
 		v := g.items[0]
 		rp := map[string]any{"property": opt.Property, "tier": tier, "seed": seed, "shards": n, "stream": v.Stream, "index": v.Index, "key": key, "what": v.What, "witness": v.Witness, "occurrences": len(g.items)}
 		b, _ := json.MarshalIndent(rp, "", " ")
-		path := filepath.Join(root(), "replay", opt.Property+"-"+hashKey(key)+".json")
+		path := filepath.Join(outRoot(), "replay", opt.Property+"-"+hashKey(key)+".json")
 		os.WriteFile(path, b, 0o644)
 		lines = append(lines, fmt.Sprintf("violation key=%s what=%s", key, v.What))
 		lines = append(lines, fmt.Sprintf("VIOLATION property=%s replay=%s", opt.Property, path))
@@ -796,8 +805,8 @@ func runParent(opt Options, tier string, seed int64) int {
 		"violations":  nViol,
 	}
 	b, _ := json.MarshalIndent(ev, "", " ")
-	os.MkdirAll(filepath.Join(root(), "evidence"), 0o755)
-	os.WriteFile(filepath.Join(root(), "evidence", opt.Property+".json"), b, 0o644)
+	os.MkdirAll(filepath.Join(outRoot(), "evidence"), 0o755)
+	os.WriteFile(filepath.Join(outRoot(), "evidence", opt.Property+".json"), b, 0o644)
 
 	for _, l := range lines {
 		fmt.Println(l)
